@@ -105,8 +105,15 @@ def draw_plan(rng: random.Random, prop: str, tier: str = "quick", methods=None, 
         elif k == "tick":
             ops.append({"op": "tick", "dt": rng.choice([1.0, 3600.0, 86400.0 * 40, -5.0, -86400.0, 1e9])})
         elif k == "report":
-            ops.append({"op": "report", "mgr": "A", "dir": f"r{len(ops)}", "suffix": rng.choice(["", "", "_x"]),
-                        "other_prepares_in_between": rng.random() < 0.6})
+            rep = {"op": "report", "mgr": "A", "dir": f"r{len(ops)}", "suffix": rng.choice(["", "", "_x"]),
+                   "other_prepares_in_between": rng.random() < 0.6}
+            if rng.random() < 0.3:
+                # first attempt hits an I/O error somewhere in the six files, then the report is simply requested again
+                kind = rng.choice(["open_w", "write", "close", "mkdir"])
+                rep["io_fault_first_attempt"] = {"kind": kind, "nth": {"open_w": rng.randint(1, 6), "close": rng.randint(1, 6),
+                                                                       "mkdir": 1, "write": rng.choice([1, 2, rng.randint(3, 9000)])}[kind],
+                                                 "partial": True, "frac": round(rng.random(), 3), "errno": 28}
+            ops.append(rep)
         elif k == "rebuild":
             o2 = list(gen.SETTERS)
             rng.shuffle(o2)
@@ -981,6 +988,18 @@ def op_report(ctx: Ctx, i, op):
     cfg = st["cfg"]
     outdir = ctx.root / op["dir"]
     reads_before = len(ctx.clock.reads)
+    if op.get("io_fault_first_attempt"):
+        shim = seams.FileShim(str(ctx.root), [op["io_fault_first_attempt"]])
+        try:
+            with Quiet(), shim:
+                mgr.prepare_results("proj", "note", "auth", "iter")
+                mgr.write_output_files(outdir, op.get("suffix", ""))
+        except OSError:
+            pass
+        except Exception as e:  # noqa: BLE001
+            ctx.bump(f"report_raised:{type(e).__name__}")
+        for kind, base, n in shim.fired:
+            ctx.bump(f"fault:report_io_{kind}")
     try:
         with Quiet():
             mgr.prepare_results("proj", "note", "auth", "iter")
